@@ -148,6 +148,29 @@ CLAIMED = {
         note=("Trusted: Coq kernel; Reals axioms as printed; translator; Transport.v (block layout, right-hand sides, final formulae) hand-written and tied by "
               "comparing matrices and outputs under prescribed collision integrals; linear solves not modelled (theorems quantify over solutions)."),
         ref="§3-C12"),
+    "C13": dict(
+        technique="Coq theorems over R about the regenerated collision-integral kernels (dispatch symmetry and classes, Coulomb / electron-neutral closed forms, scaling, recursion) + extracted-model correspondence over all species pairs and orders + quadrature oracle",
+        text=("proof, partial: from the regenerated Qij dispatch chain and kernels: the dispatch is symmetric under exchange of the pair and every pair lands in its "
+              "documented class (charged-charged Coulomb, electron-neutral, neutral-neutral, own-ion resonant charge transfer for odd l, elastic ion-neutral otherwise); "
+              "the Coulomb integral is the documented closed form, positive when the logarithm dominates its order-dependent constant, with the stated (l,s) scaling; the "
+              "constant-cross-section electron-neutral form equals its thermal average exactly (RESTRICTED to D2 = 0; the general law is validated against quadrature); the "
+              "temperature recursion used for unfitted orders has the documented form. NOT proved: positivity / finiteness of the fitted neutral-neutral and ion-neutral "
+              "integrals (validated for every species pair, all 16 consumed orders, 300..30000 K)."),
+        note=("Trusted: Coq kernel; Reals axioms as printed; Coq-Interval for two numeric bounds; translator; scipy gamma as a parameter of the real instance; "
+              "hand-written recursion wrapper and cross-section unpacking tied by the correspondence check (extracted model vs implementation, 1e-9 / 1e-6 on recursed orders)."),
+        ref="§3-C13"),
+    "C14": dict(
+        technique="Coq theorems over R (emission positivity, single-gas second-order viscosity = textbook expression, conductivity sign lemma, thermal-conductivity assembly) with kernel-checked refutations for the two recorded findings + window validation + assembly correspondence",
+        text=("proof, partial: proved — the total emission coefficient (regenerated kernel) is strictly positive for positive densities as soon as one line is listed; for a "
+              "single-component un-ionised gas the regenerated qhat blocks with the model's right-hand side and final formula give exactly the textbook second-order "
+              "Chapman-Enskog viscosity built from the gas's own (2,2), (2,3), (2,4) integrals; the electrical conductivity is zero without charges and non-negative when no "
+              "species moves against its charge sign; the total thermal conductivity of a frozen composition is k' + sum hv D^T / T. REFUTED (kernel-checked witnesses, recorded as "
+              "known findings with the failing states in corpus/C14): positivity of the total thermal conductivity with thermal-diffusion terms, non-negativity of the "
+              "conductivity with negative ions. NOT proved: positivity / finiteness of viscosity, thermal conductivity and heat capacity of general mixtures — validated over "
+              "the operating window (T 1000..25000 K, P 1e4..1e6 Pa incl. corners, element shares 2..98 %) on shipped and synthetic species sets."),
+        note=("Trusted: Coq kernel; Reals axioms as printed; translator; Transport.v final formulae and the thermal-conductivity assembly are hand-written and tied by comparison "
+              "with the implementation under prescribed collision integrals and temperature-dependent compositions; numpy.linalg.solve trusted to solve the systems."),
+        ref="§3-C14"),
 }
 
 NOT_YET = {}
